@@ -16,6 +16,8 @@ ID = 'C18'
 COQ_IMPORTS = ['C18_Model', 'C18_Heap']
 GENERATORS = ['gen_attr_reserved']
 DISAGREEMENT_IS_TIE_ONLY = False
+MODELLED_FUNCS = {'sugar/core/meta.py': ['Attr.__init__', 'Attr.__getitem__', 'Attr.__setitem__', 'Attr.__delitem__', 'Attr.__getattr__',
+                                         'Attr.copy', 'Attr.update', 'Attr.__iter__', 'Attr.__len__']}
 NO_SHRINK_KEYS = ['mapkind', 'obj', 'how', 'mk', 'sub', 'data']
 
 # ----------------------------------------------------------------------------- literals
@@ -646,7 +648,7 @@ RULE = ('kind attr: histories of 1-12 mapping operations (item/attribute set, ge
         'len, keys, in, ==, nested list edits) at random paths of x = Meta(d) for random nested literals d; kind heap: programs of 2-12 '
         'steps over 4 variables (Meta(d), x.copy(), Meta(x.path), assignment/append of literals and of EXISTING sub-objects, del, '
         '"is" tests) compared with the heap model on the snapshots of all variables; extra: 800 (quick) / 30000 (thorough) random '
-        'histories of 1-12 public operations (158 operations on BioSeq, BioBasket, FeatureList, Feature, Location, Meta) on real objects '
+        'histories of 1-12 public operations (168 operations on BioSeq, BioBasket, FeatureList, Feature, Location, Meta) on real objects '
         'and their copies with deep structural snapshots, id()-reachability and write-footprint checks, plus re-wrap checks of every '
         'constructor / non-in-place operation; non-trivial = history that reaches a nested object or mixes operation kinds (attr), or '
         'contains copy / re-wrap / reference assignment (heap)')
@@ -660,19 +662,29 @@ TRUSTED = ['copy.deepcopy, object identity, reference semantics and collections.
 ASSUMPTIONS = ['metadata keys are Latin-1 str outside the reserved set R = dir(Meta) + __dunder__ names (open finding F20)',
                'literal values are None/bool/int/str/list/dict (no floats, tuples, sets) in the modelled kinds',
                'heap kind: objects passed to copy() have no internal sharing and no cycles (decided by the model: tree_shaped)']
-LEVEL_TEXT = ('Machine-checked Coq theorems (16, all closed under the global context) over two hand-written models of sugar.core.meta: '
-              '(a) value level - get/set/delete laws of Attr/Meta incl. key order, attribute access = key access, recursive '
-              'Mapping->Attr conversion (to_dict(Attr(d)) = d, Attr never directly holds a plain dict), Attr(d) == d and Meta(d) == d '
-              'for every nested literal with unreserved unique keys; (b) heap level - frame theorem (a write outside reach(x) leaves '
-              'every deep read of x unchanged), deepcopy_disjoint (y = x.copy() has an equal snapshot, x and all old cells are '
-              'untouched, reach(x) and reach(y) are disjoint) and copy_isolation for arbitrary write histories in both directions. '
-              'Both models are tied to the real classes by differential testing on every run (per-operation results, typed snapshots, '
-              'identity tests); the BioSeq/BioBasket/FeatureList part of the property is decided by randomized operation histories '
-              'on real objects with deep snapshots, id()-reachability and footprint checks (testing, not proof).')
-LEVEL_NOTE = ('Proved for the models only; the models are tied by testing. Trusted: Coq kernel/vm_compute, copy.deepcopy and CPython '
-              'reference semantics (deepcopy modelled as read-and-rebuild, exact for tree-shaped objects), MutableMapping mixins, the '
-              'harness. copy() isolation and the in-place/not-in-place contracts of BioSeq, BioBasket, FeatureList, Feature, Location '
-              'are NOT modelled in Coq: they are checked by 800/30000 random histories of 158 public operations per run. '
+LEVEL_TEXT = ('Machine-checked Coq theorems (33, all closed under the global context) over two hand-written models of sugar.core.meta '
+              '(every statement of the modelled Attr methods is executed by the quick tier). '
+              '(a) Value level: get/set/delete laws incl. key order; attribute access = key access and get-after-set at ANY path; '
+              'recursive Mapping->Attr conversion (to_dict(Attr(d)) = d); an invariant (unique keys, an Attr never directly holds a '
+              'plain dict) that Meta(d) establishes and EVERY modelled operation at every path preserves, hence after any history '
+              'x == dict view == x; reading operations return the object unchanged. '
+              '(b) Heap level: frame theorem; y = x.copy() has an equal snapshot on disjoint cells; the no-dangling-reference and '
+              'two-colour separation invariants are composed through EVERY modelled operation (Meta(d), copy, Meta(x) re-wrap, literal '
+              'and reference assignment with conversion, del, list append, is), giving copy isolation over ARBITRARY histories of '
+              'modelled operations from the empty heap, both directions, with no hypothesis left to the reader; copy/re-wrap/is are '
+              'not in-place. (c) Refinement: for objects without internal sharing the heap operation followed by a deep read equals '
+              'the value-level operation on the deep read (setitem of a literal, delitem, list append, at key paths). '
+              'Both models are tied to the real classes by differential testing on every run; the BioSeq/BioBasket/FeatureList part of '
+              'the property is decided by randomized operation histories and deterministic matrices on real objects (testing, not proof).')
+LEVEL_NOTE = ('Proved for the models only; the models are tied to /repo by testing (0 disagreements over 24 000 cases in the thorough tier). '
+              'All 24 statements of the 9 modelled Attr methods (meta.py) are executed in the quick tier; none is unreachable. '
+              'Trusted: Coq kernel/vm_compute, copy.deepcopy and CPython reference semantics (deepcopy modelled as read-and-rebuild, exact '
+              'for tree-shaped objects: a copy() of an internally shared object is outside the modelled domain, decided by tree_shaped), '
+              'MutableMapping mixins, the harness. TESTED ONLY (not modelled in Coq): copy() isolation and the in-place / not-in-place '
+              'contracts of BioSeq, BioBasket, FeatureList, Feature, Location -- 800/30000 random histories of 168 public operations per '
+              'run, a 2777-case matrix of match/matchall/find_orfs/copy-chains over all reading-frame selections, 33 re-wrap checks, a '
+              '351-case matrix of mapping kinds x entry paths. Not proved: refinement for reference assignment / paths through list '
+              'indices; the heap analogue of the "Attr never holds a plain dict" invariant. '
               'Domain excludes reserved keys R = dir(Meta) + __dunder__ names: open finding F20 (keys such as items/update/copy shadow '
               'the mapping methods; __deepcopy__/__reduce_ex__/__getstate__ break copy(); __class__/__dict__ break attribute = key '
               'access), reported as KNOWN-FINDING while its witness fails. No axioms.')
